@@ -46,7 +46,15 @@ structure ConfigDef where
   templates : List Template
   deriving Inhabited
 
+/-- `Metadata` (strings as UTF-8 bytes). -/
+structure Metadata where
+  version : Bytes
+  source : Bytes
+  entries : List (Bytes × Bytes)
+  deriving Repr, DecidableEq, Inhabited
+
 structure Definition where
+  metadata : Metadata := ⟨[], [], []⟩
   model : ModelDef
   specials : List SpecialDef
   config : ConfigDef
